@@ -9,7 +9,7 @@ import nodecheck
 from nodecheck import Obs, kv, parse_msg, parse_cfg
 
 PROP = "C09"
-MODULES = ["DV.Properties.C09", "DV.Properties.C09Race", "DV.Properties.C09Tables", "DV.Properties.C09Hist", "DV.Properties.ConfigTie"]
+MODULES = ["DV.Properties.C09", "DV.Properties.C09Race", "DV.Properties.C09Tables", "DV.Properties.C09Hist", "DV.Properties.ConfigTie", "DV.Properties.C09One"]
 KEEP = {"OUT": None, "APP": None, "CONN": ["state", "live"]}
 
 
